@@ -746,8 +746,10 @@ def main():
             changed.append(fn)
     report["changed"] = changed
     report["reflect"] = {k: v for k, v in R.items() if k not in ("VALIDATORS",)}
-    with open(os.path.join(GEN, "report.json"), "w") as f:
+    tmp = os.path.join(GEN, "report.json.%d.tmp" % os.getpid())      # readers of other checks never see a partial file
+    with open(tmp, "w") as f:
         json.dump(report, f, indent=1, sort_keys=True)
+    os.replace(tmp, os.path.join(GEN, "report.json"))
     for p in report["problems"]:
         print("translate: PROBLEM:", p)
     return 0
